@@ -358,20 +358,31 @@ def setup(scratch):
     _state.clear()
     _state["dir"] = scratch
     _state["n"] = 0
+    # pack commits are IO bound (3x slower on the shared disk): build the trees on tmpfs when there is one;
+    # the directory is removed in teardown() (and at exit)
+    if os.path.isdir("/dev/shm") and os.access("/dev/shm", os.W_OK):
+        import atexit
+        import tempfile
+        d = tempfile.mkdtemp(prefix="verif-C17-", dir="/dev/shm")
+        atexit.register(shutil.rmtree, d, True)
+        _state["dir"] = _state["own"] = d
 
 
 def teardown():
-    d = _state.get("own")
-    if d:
-        shutil.rmtree(d, ignore_errors=True)
+    for k in ("own", "own2"):
+        if _state.get(k):
+            shutil.rmtree(_state[k], ignore_errors=True)
     _state.clear()
 
 
 def _scratch():
     if "dir" not in _state or not os.path.isdir(_state["dir"]):
         import tempfile
-        setup(tempfile.mkdtemp(prefix="c17-"))
-        _state["own"] = _state["dir"]
+        import atexit
+        d = tempfile.mkdtemp(prefix="c17-")
+        atexit.register(shutil.rmtree, d, True)
+        setup(d)
+        _state["own2"] = d
     return _state["dir"]
 
 
@@ -711,6 +722,8 @@ def _git_read(tree):
                     stem, suf = p[:-len(s)], s
             if stem not in GIT_FID:
                 raise AssertionError("unexpected versioned path %r" % p)
+            if hasattr(tree, "abspath") and not os.path.lexists(tree.abspath(p)):
+                continue          # conflicted index entry (stage != 0) whose file the merge removed
             if e.kind == "file":
                 out.append([GIT_FID[stem], 0, p, "f", tree.get_file_text(p), bool(tree.is_executable(p))])
             elif e.kind == "symlink":
